@@ -530,8 +530,16 @@ def render_file(path, module, moddir, ctx):
             edits.append(Edit(f.sig_start, f.body_end, head + new_sig + ctext + ';' + '/*@ENDFN@*/'))
         ptxt = src[f.params_span[0]:f.params_span[1]]
         rtxt = src[f.ret_span[0]:f.ret_span[1]] if f.ret_span else ''
+        called = set()
+        if f.has_body:
+            bt = [t for t in body_tokens(src, f) if t.kind not in ('ws', 'lcomment', 'bcomment')]
+            for bi in range(len(bt) - 1):
+                if bt[bi].kind == 'id' and bt[bi + 1].text == '(':
+                    via_self = bi >= 3 and bt[bi - 1].text == ':' and bt[bi - 2].text == ':' and bt[bi - 3].text == 'Self'
+                    called.add(('Self::' if via_self else '') + bt[bi].text)
         owner_ty = f.owner.split(' for ')[-1]
         info.functions.append({'key': key, 'file': rel, 'has_body': f.has_body, 'has_contract': bool(c), 'props': props,
+                               'calls': sorted(called),
                                'mut_self': bool(re.search(r'&\s*(\'\w+\s+)?mut\s+self', ptxt)),
                                'returns_self': bool(re.search(r'\bSelf\b', rtxt)) or (owner_ty != '' and bool(re.search(r'\b%s\b' % re.escape(owner_ty), rtxt))),
                                'body_sha256': sha(body) if body else None, 'body': body, 'prologue': bool(prologue),
